@@ -77,10 +77,14 @@ impl<M: SpaceModel> Sweep for SpaceSweep<M> {
             None => return false,
         };
         ctx.force_case(case.as_str().unwrap_or(""));
-        if let Some(step) = crate::engine::guard(|| self.model.run(&hist)).unwrap_or(None) {
-            for (sig, detail) in step.viols {
-                ctx.violation(&sig, detail);
+        match crate::engine::guard(|| self.model.run(&hist)) {
+            Ok(Some(step)) => {
+                for (sig, detail) in step.viols {
+                    ctx.violation(&sig, detail);
+                }
             }
+            Ok(None) => {}
+            Err(p) => ctx.violation("panic", p),
         }
         true
     }
